@@ -20,15 +20,22 @@ def check(run):
             [dict(num=1500, ops=18), dict(num=800, ops=26, maxb=9), dict(num=1000, ops=22, txs=kv, maxb=8), dict(num=400, ops=18, window=2)]
     groups = xc.gen(run, plans)
     xc.replay_validate(run, groups)
+    # the same statement for every node of a network of real engines: the projection of each node after every step
+    # equals what the specification derives from that node's chain and pool alone (Net.tla), whatever order blocks and
+    # transactions arrived in
+    nst = {}
+    if not run.violations:
+        _, nst = xc.net_phase(run, 15 if quick else 400, mc=not quick)
     behs = [b for _, bs, _ in groups for b in bs]
     st = xc.stats(behs)
     run.samples = behs[:2]
     run.cov["op_mix"] = dict(st)
-    run.assumptions += ["transactions come from the 15-transaction catalogue of XState.tla (transfers with fee, zero-value "
+    run.assumptions += ["transactions come from the catalogue of XState.tla (transfers with fee, zero-value "
                         "and frozen outputs, dependent chains, double spends, key create / overwrite / delete / re-create / "
                         "delete-of-missing / read-only)", "in-memory kv engine instead of goleveldb",
                         "chain-governed parameters other than the irreversible height are not varied"]
     run.finish(require={
         "walks_ok": (st["walk:ok"], 20), "plays_ok": (st["play:ok"], 10), "mines": (st["mine:ok"], 10),
         "restarts": (st["restart:ok"], 10), "admitted": (st["submit:admit"], 30),
+        "network_block_deliveries": (nst.get("ndeliverblk:ok", 0), 20),
     })
